@@ -85,3 +85,11 @@ Theorem C10_no_empty_band : forall p g g' b g'',
   forall i, (i < length (g_L g''))%nat -> l_nodes (glayer g'' i) <> [].
 Proof. exact NSOptFinal.exec_network_simplex_no_empty_band. Qed.
 Print Assumptions C10_no_empty_band.
+
+(* ---------- regenerated from the source on every run (translator): the layering phase does not read node identifiers, as its
+   model, which contains none, assumes ---------- *)
+From Coq Require Import String.
+From Autog Require Facts FactsChecks.
+Theorem C10_code_reads_no_identifier : FactsChecks.id_reads_allowed_in "internal/phase2/"%string = true.
+Proof. vm_compute. reflexivity. Qed.
+Print Assumptions C10_code_reads_no_identifier.
